@@ -47,8 +47,7 @@ def run(chk, wd, thorough):
     for abi in ABIS:
         apath = os.path.join(wd, "sig_%s.ndjson" % abi)
         p = vp.run([drvs["sig_driver_" + abi], apath, str(vp.seed())], timeout=900)
-        if p.returncode != 0:
-            raise vp.Broken("sig_driver(%s) rc=%d %s" % (abi, p.returncode, p.stderr[-300:]))
+        vp.exit_ok(p, "sig_driver(%s)" % abi)
         for e in vp.read_ndjson(apath):
             e["abi"] = abi
             events.append(e)
